@@ -133,9 +133,10 @@ def importCell (env : Env) (f : Format) (typ : Ty) (val : Dyn) : Outcome (Val ×
   match val with
   | .nil => .ok (.cell .nil f typ, none)
   | .val (.row ms) =>
-    -- a nested object never changes the column's format: Auto and Hidden keep it as it is, the
-    -- other formats convert (hence reject) it like any other value
-    if f == .auto || f == .hidden then .ok (.cell (.val (.row ms)) f typ, none)
+    -- a nested object never changes the column's format: Auto and Hidden columns without a raw type
+    -- keep it as it is; the other formats, and columns declared with a raw type, convert (hence
+    -- reject) it like any other value
+    if (f == .auto || f == .hidden) && typ == .none then .ok (.cell (.val (.row ms)) f typ, none)
     else importByFormat env f typ val
   | .val v => .ok (.cell (Cells.raw v) (Cells.format v) (Cells.rawType v), none)
   | _ => importByFormat env f typ val
